@@ -54,6 +54,11 @@ Lemma tie_structure :
   gen_gbo_order_ok = true /\ gen_box_filters_ok = true.
 Proof. repeat split; reflexivity. Qed.
 
+(* _fit_block_norm of the current source is the std ratio / first-percentile difference over the jointly valid pixels for ANY number of them, and the
+   zero model only when there is none: no threshold on the count, no fallback or remembered model *)
+Lemma tie_block_norm : gen_block_norm_ok = true.
+Proof. reflexivity. Qed.
+
 (* _fit_gain_blk_offset: source normalised as x * na + nb (Fit.norm_blk); final parameters (gain of the normalised fit) * na and * nb, i.e. the
    offset is computed from the un-rescaled gain (Fit.gbo_params) *)
 Lemma tie_gbo x na nb m : gen_gbo_norm x na nb m == x * na + nb /\ gen_gbo_gain x na nb m == m * na /\ gen_gbo_offset x na nb m == m * nb.
